@@ -16,6 +16,7 @@ the commands of a primitive; configuration writes additionally perform one earli
 map (`C15_refused_write_changes_nothing`).
 -/
 import OnosVerif.Proofs.Store
+import OnosVerif.Proofs.Watch
 
 namespace OnosVerif.Props.C15
 open OnosVerif.Store
@@ -172,5 +173,238 @@ example : wS2.kind.isCfg = true ∧ carried .update wStale ≠ none := by decide
 example : (write wS2 .update wStale).err = some .conflict := by decide
 example : isWinner .cfg2 [] ['t'] 1 (.update { wHeld with payload := 1 } [], step wS1 (.update { wHeld with payload := 1 } [])) = true := by decide
 example : createdIndexes .tx3 "a-y-1".toList (trace (Store.init .tx3) [.create (wTx 'a') [], .create { wTx 'a' with key := ['j'] } []]) = [1, 2] := by decide
+
+
+/-! ## watchers
+
+The machine (OnosVerif/Store/Watch.lean): the primitive's event log, the dispatcher goroutine with its
+copy of the listeners, one goroutine per `Watch` (registered → replay read → replay sends → forward loop),
+unbuffered rendezvous, consumers that read / stop / cancel; every interleaving of the steps of all
+goroutines and all clients is a run.  `codeCfg k` is the shape of `Watch` in store `k` as the translator
+finds it in the sources now. -/
+
+open OnosVerif.Store.Watch
+
+/-- regenerated: in each of the five stores the listener is registered before any replay read. -/
+theorem C15_register_before_replay (k : Kind) : (codeCfg k).registerFirst = true := by
+  cases k <;> decide
+
+/-- A watcher is shown the latest state: in every reachable state of every store's machine in which the
+    dispatcher has caught up (nothing in flight, every event taken) and the per-watch goroutine sits in
+    its forward loop with nothing queued, the LAST version the consumer was shown of every record it
+    covers is the record's current version — with replay for every record that exists (written before or
+    after the Watch call), without replay for every record written since the Watch call.  For all records
+    or for one, for any number of watchers and writers, for every interleaving; what other watchers do
+    (stop reading, cancel, leave) is irrelevant to it. -/
+theorem C15_watch_sees_latest (kind : Kind) (s : St) (hr : Reachable (codeCfg kind) s)
+    (hd : s.disp = .idle) (hp : s.dpos = s.evs.length)
+    (i : Nat) (w : Watcher) (hw : s.ws[i]? = some w) (hloop : w.phase = .loop) (hq : w.queue = [])
+    (k : Key) (hc : covers w k = true) :
+    (w.replay = true → lastFor k w.delivered = lastFor k s.evs) ∧
+    (w.replay = false → lastFor k (s.evs.drop w.regAt) = none ∨ lastFor k w.delivered = lastFor k s.evs) :=
+  sees_latest_of_inv _ s (inv_reachable _ (C15_register_before_replay kind) s hr) hd hp i w hw hloop hq k hc
+
+/-- the same for any shape of `Watch` that registers first (the code before the fix, the ideal one, …). -/
+theorem C15_watch_sees_latest_any (cfg : Cfg) (hrf : cfg.registerFirst = true) (s : St) (hr : Reachable cfg s)
+    (hd : s.disp = .idle) (hp : s.dpos = s.evs.length)
+    (i : Nat) (w : Watcher) (hw : s.ws[i]? = some w) (hloop : w.phase = .loop) (hq : w.queue = [])
+    (k : Key) (hc : covers w k = true) (hrep : w.replay = true) :
+    lastFor k w.delivered = lastFor k s.evs :=
+  (sees_latest_of_inv _ s (inv_reachable _ hrf s hr) hd hp i w hw hloop hq k hc).1 hrep
+
+/-- … and registering first is what it rests on: with the registration moved behind the replay (all else
+    equal) a write that lands between the replay read and the registration is never shown — record `k`
+    exists, Watch with replay, the snapshot is read, `k` is written again, the dispatcher finds no
+    listener, the replayed version 1 is delivered; at quiescence the watcher's last version is 1, the
+    store's is 2. -/
+def lateRegister : Cfg := { idealCfg with registerFirst := false }
+
+/-- the last version of record `k` that watcher `i`'s consumer was shown. -/
+def lastShown (s : St) (i : Nat) (k : Key) : Option Nat := (s.ws[i]?).bind (fun w => lastFor k w.delivered)
+
+/-- watcher `i`'s goroutine is in its forward loop with nothing queued. -/
+def inLoop (s : St) (i : Nat) : Bool :=
+  match s.ws[i]? with
+  | some w => w.phase == .loop && w.queue.isEmpty
+  | none => false
+
+theorem C15_watch_needs_register_first :
+    ∃ s, Watch.run lateRegister {} [.write ['k'], .pick, .watch none true, .replayRead 0, .write ['k'], .pick, .deliver 0] = some s ∧
+      s.disp = .idle ∧ s.dpos = s.evs.length ∧ inLoop s 0 = true ∧
+      lastShown s 0 ['k'] = some 1 ∧ lastFor ['k'] s.evs = some 2 := by
+  refine ⟨_, rfl, ?_⟩
+  decide
+
+/-! ### cancelling a watch -/
+
+/-- a state in which the store's goroutines have work left (an event in the dispatcher's hands or not yet
+    taken) but none of them can move, although every consumer that stopped reading has cancelled and the
+    process is alive: the dispatcher waits for ever, every watcher of the store is cut off. -/
+def Stalled (cfg : Cfg) (s : St) : Prop :=
+  s.crashed = false ∧ (∀ (i : Nat) (w : Watcher), s.ws[i]? = some w → w.reading = true ∨ w.cancelled = true) ∧
+  (s.disp ≠ .idle ∨ s.dpos < s.evs.length) ∧ ∀ st : Step, st.isEnv = false → Watch.step cfg s st = none
+
+/-- Cancelling a watch never stalls the store (full statement): for a `Watch` whose sends to the consumer are
+    all guarded by `ctx.Done()`, whose every way out starts the drain of its internal channel (or that has
+    no way out during replay) and that registers first, no reachable state is stalled — whatever the
+    consumers did (stop reading and cancel at any moment, during replay, with events pending). -/
+theorem C15_cancel_isolated (cfg : Cfg) (hg : cfg.guardedSends = true)
+    (hd : cfg.earlyExitsDrain = true ∨ cfg.hasEarlyExit = false) (hrf : cfg.registerFirst = true)
+    (s : St) (hr : Reachable cfg s) : ¬ Stalled cfg s := by
+  intro ⟨hc, hall, hwork, hstuck⟩
+  have hi := inv_reachable cfg hrf s hr
+  obtain ⟨st, he, hs⟩ := no_deadlock cfg hg s hi hc hall (hi.nogone hd) hwork
+  rw [hstuck st he] at hs
+  cases hs
+
+/-- the v2 proposal store (own event stream per watcher, no shared dispatcher) satisfies it as it is. -/
+theorem C15_cancel_isolated_proposal_store (s : St) (hr : Reachable (codeCfg .prop2) s) : ¬ Stalled (codeCfg .prop2) s := by
+  intro ⟨hc, hall, hwork, hstuck⟩
+  have hi := inv_reachable _ (C15_register_before_replay .prop2) s hr
+  have hidle : s.disp = .idle := hi.own (by decide)
+  have hlt : s.dpos < s.evs.length := by
+    rcases hwork with h | h
+    · exact absurd hidle h
+    · exact h
+  have : Watch.step (codeCfg .prop2) s .pick = none := hstuck .pick rfl
+  rw [step_not_crashed _ s _ hc] at this
+  simp only [stepPick, hidle, List.getElem?_eq_getElem hlt] at this
+  split at this <;> cases this
+
+/-- The four dispatcher stores as they are now (after commit 0003cc9): the part that holds — no reachable
+    state is stalled unless some watcher has left through one of the replay-time exits that do not start the
+    drain (`if ctx.Err() != nil { close(ch); return }`, a failed `List(ctx)`), i.e. unless a Watch with
+    replay was cancelled before its replay had finished. -/
+theorem C15_cancel_isolated_partial (kind : Kind) (hg : (codeCfg kind).guardedSends = true)
+    (s : St) (hr : Reachable (codeCfg kind) s)
+    (hgone : ∀ (i : Nat) (w : Watcher), s.ws[i]? = some w → w.phase ≠ .gone) : ¬ Stalled (codeCfg kind) s := by
+  intro ⟨hc, hall, hwork, hstuck⟩
+  have hi := inv_reachable _ (C15_register_before_replay kind) s hr
+  obtain ⟨st, he, hs⟩ := no_deadlock _ hg s hi hc hall hgone hwork
+  rw [hstuck st he] at hs
+  cases hs
+
+/-- regenerated: every send of the per-watch goroutines of the four dispatcher stores is now guarded. -/
+theorem C15_sends_guarded :
+    (codeCfg .tx2).guardedSends = true ∧ (codeCfg .cfg2).guardedSends = true ∧
+    (codeCfg .tx3).guardedSends = true ∧ (codeCfg .cfg3).guardedSends = true := by decide
+
+/-- … but the replay-time exits still leave without the drain goroutine (regenerated), so the full
+    statement does not apply to them: -/
+theorem C15_early_exits_do_not_drain :
+    (codeCfg .tx2).earlyExitsDrain = false ∧ (codeCfg .cfg2).earlyExitsDrain = false ∧
+    (codeCfg .tx3).earlyExitsDrain = false ∧ (codeCfg .cfg3).earlyExitsDrain = false ∧
+    (codeCfg .tx2).hasEarlyExit = true := by decide
+
+/-- negation witness for the code as it is (v2 transaction store; the other three have the same shape):
+    a Watch with replay, a write, the dispatcher copies the listener, the watch is cancelled, its goroutine
+    notices `ctx.Err() != nil` and returns without the drain — the dispatcher blocks for ever on a channel
+    nobody reads. -/
+def stalledNow : List Step := [.watch none true, .write ['k'], .pick, .cancel 0, .exitEarly 0]
+
+instance (cfg : Cfg) (s : St) : Decidable (Stalled cfg s) := by
+  unfold Stalled
+  have h1 : Decidable (∀ (i : Nat) (w : Watcher), s.ws[i]? = some w → w.reading = true ∨ w.cancelled = true) :=
+    decidable_of_iff (∀ w ∈ s.ws, w.reading = true ∨ w.cancelled = true)
+      ⟨fun h i w hw => h w (List.mem_of_getElem? hw), fun h w hw => by
+        obtain ⟨i, hi, rfl⟩ := List.getElem_of_mem hw
+        exact h i _ (List.getElem?_eq_getElem hi)⟩
+  have h2 : Decidable (∀ st : Step, st.isEnv = false → Watch.step cfg s st = none) :=
+    decidable_of_iff ((Watch.step cfg s .pick = none ∧ Watch.step cfg s .send = none) ∧
+        ∀ i ∈ List.range (s.ws.length + 1), Watch.step cfg s (.pull i) = none ∧ Watch.step cfg s (.replayRead i) = none ∧
+          Watch.step cfg s (.deliver i) = none ∧ Watch.step cfg s (.exit i) = none ∧ Watch.step cfg s (.exitEarly i) = none)
+      ⟨fun ⟨⟨hp, hs⟩, hall⟩ st he => by
+        have key : ∀ i, s.ws.length + 1 ≤ i → s.ws[i]? = none := fun i hi => List.getElem?_eq_none (by omega)
+        by_cases hcr : s.crashed = true
+        · simp [Watch.step, hcr]
+        · have hcr' : s.crashed = false := by cases h : s.crashed <;> simp_all
+          cases st with
+          | write k => cases he
+          | watch a b => cases he
+          | stopReading i => cases he
+          | resumeReading i => cases he
+          | cancel i => cases he
+          | pick => exact hp
+          | send => exact hs
+          | pull i =>
+            by_cases hi : i < s.ws.length + 1
+            · exact (hall i (List.mem_range.mpr hi)).1
+            · rw [step_not_crashed _ s _ hcr']; simp [stepPull, key i (by omega)]
+          | replayRead i =>
+            by_cases hi : i < s.ws.length + 1
+            · exact (hall i (List.mem_range.mpr hi)).2.1
+            · rw [step_not_crashed _ s _ hcr']; simp [stepReplayRead, key i (by omega)]
+          | deliver i =>
+            by_cases hi : i < s.ws.length + 1
+            · exact (hall i (List.mem_range.mpr hi)).2.2.1
+            · rw [step_not_crashed _ s _ hcr']; simp [stepDeliver, key i (by omega)]
+          | exit i =>
+            by_cases hi : i < s.ws.length + 1
+            · exact (hall i (List.mem_range.mpr hi)).2.2.2.1
+            · rw [step_not_crashed _ s _ hcr']; simp [stepExit, key i (by omega)]
+          | exitEarly i =>
+            by_cases hi : i < s.ws.length + 1
+            · exact (hall i (List.mem_range.mpr hi)).2.2.2.2
+            · rw [step_not_crashed _ s _ hcr']; simp [stepExitEarly, key i (by omega)],
+       fun h => ⟨⟨h .pick rfl, h .send rfl⟩, fun i _ =>
+         ⟨h (.pull i) rfl, h (.replayRead i) rfl, h (.deliver i) rfl, h (.exit i) rfl, h (.exitEarly i) rfl⟩⟩⟩
+  exact inferInstance
+
+theorem C15_cancel_isolated_full_fails :
+    ∃ s, Watch.run (codeCfg .tx2) {} stalledNow = some s ∧ Stalled (codeCfg .tx2) s := by
+  refine ⟨_, rfl, ?_⟩
+  decide
+
+/-- the regression that commit 0003cc9 repaired, kept as a variant of the machine: with the bare
+    `ch <- event` a consumer that stops reading and cancels (every Set handler after it has answered) leaves its
+    goroutine blocked in the send; the next event stalls the dispatcher. -/
+def stalledBeforeFix : List Step :=
+  [.watch none false, .write ['k'], .pick, .send, .stopReading 0, .cancel 0, .write ['k'], .pick]
+
+theorem C15_cancel_isolated_failed_before_fix :
+    ∃ s, Watch.run preFixCfg {} stalledBeforeFix = some s ∧ Stalled preFixCfg s := by
+  refine ⟨_, rfl, ?_⟩
+  decide
+
+/-- … and the same history on the code as it is ends with the watcher drained and the dispatcher free. -/
+example : ∃ s, Watch.run (codeCfg .tx2) {} (stalledBeforeFix ++ [.exit 0, .send]) = some s ∧ s.disp = .idle ∧ ¬ Stalled (codeCfg .tx2) s := by
+  refine ⟨_, rfl, ?_⟩
+  decide
+
+/-- Cancelling a watch never takes the process down (full statement): holds of every `Watch` that closes the
+    consumer channel once. -/
+theorem C15_cancel_never_crashes (cfg : Cfg) (hdc : cfg.doubleClose = false) (hrf : cfg.registerFirst = true)
+    (s : St) (hr : Reachable cfg s) : s.crashed = false :=
+  (inv_reachable cfg hrf s hr).nocrash hdc
+
+/-- regenerated: three of the dispatcher stores close once; the v3 transaction store has `defer close(ch)`
+    AND `close(ch)` in its ctx.Done branches. -/
+theorem C15_close_once :
+    (codeCfg .tx2).doubleClose = false ∧ (codeCfg .cfg2).doubleClose = false ∧ (codeCfg .cfg3).doubleClose = false ∧
+    (codeCfg .prop2).doubleClose = false ∧ (codeCfg .tx3).doubleClose = true := by decide
+
+/-- negation witness for the v3 transaction store: Watch, cancel, the goroutine takes the ctx.Done branch —
+    close of a closed channel, the process is gone. -/
+theorem C15_cancel_never_crashes_v3tx_fails :
+    ∃ s, Watch.run (codeCfg .tx3) {} [.watch none false, .cancel 0, .exit 0] = some s ∧ s.crashed = true := by
+  refine ⟨_, rfl, ?_⟩
+  decide
+
+/-! non-vacuity -/
+
+/-- a reachable quiescent state with a live replay watcher that has seen two versions of one record and one of
+    another, and a per-record watcher. -/
+def sampleRun : List Step :=
+  [.write ['a'], .pick, .watch none true, .write ['a'], .replayRead 0, .deliver 0, .pick, .send, .deliver 0,
+   .watch (some ['b']) false, .write ['b'], .pick, .send, .deliver 0, .send, .deliver 1]
+
+example : ∃ s, Watch.run (codeCfg .tx2) {} sampleRun = some s ∧ s.disp = .idle ∧ s.dpos = s.evs.length ∧
+    inLoop s 0 = true ∧ inLoop s 1 = true ∧ lastShown s 0 ['a'] = some 2 ∧ lastShown s 0 ['b'] = some 1 ∧
+    lastShown s 1 ['b'] = some 1 ∧ lastShown s 1 ['a'] = none := by
+  refine ⟨_, rfl, ?_⟩
+  decide
+
+example : idealCfg.guardedSends = true ∧ (idealCfg.earlyExitsDrain = true ∨ idealCfg.hasEarlyExit = false) ∧
+    idealCfg.registerFirst = true ∧ idealCfg.doubleClose = false := by decide
 
 end OnosVerif.Props.C15
